@@ -264,11 +264,11 @@ def run_files(spec):
     if np.abs(qs[0] - qs[1]).max() < 1e-6:
         qs[1] = qs[1] + np.array([0.11, 0.07, -0.05])
     if spec["nac"] != "none":
-        # one q-point a few 1e-5 ... 1e-3 1/Angstrom from the zone centre: not zero for any access path, so all of them must apply the
-        # same (finite-q) correction
-        qcart = rng.normal(size=3)
-        qcart *= 10 ** rng.uniform(-4.5, -3.0) / np.linalg.norm(qcart)
-        qs = np.vstack([qs, prim.cell @ qcart])
+        # one q-point a few 1e-5 ... 1e-3 1/Angstrom from the zone centre also goes through the file writers
+        rng2 = rng_from(spec["key"], 5)
+        qcart = rng2.normal(size=3)
+        qcart *= 10 ** rng2.uniform(-4.5, -3.0) / np.linalg.norm(qcart)
+        qs = np.vstack([qs, ph.primitive.cell @ qcart])
     cwd = os.getcwd()
     td = tempfile.mkdtemp(prefix="c14-", dir=os.environ.get("VERIF_TMP", "/var/tmp"))
     os.chdir(td)
